@@ -357,26 +357,37 @@ func c20Extra(c *Ctx) {
 	// the fold family: one position differs, by case only (equal) or by 0x20 between non-letters (not equal)
 	for n := 1; n <= 80; n++ {
 		for pos := 0; pos < n; pos++ {
-			for _, pr := range [][2]byte{{'a', 'A'}, {'Z', 'z'}, {'@', '`'}, {'[', '{'}, {'a', 'b'}} {
-				a, b := make([]byte, n), make([]byte, n)
-				for i := range a {
-					a[i], b[i] = 'q', 'Q'
+			for pi, pr := range [][2]byte{{'a', 'A'}, {'Z', 'z'}, {'@', '`'}, {'[', '{'}, {'a', 'b'}} {
+				// what surrounds the position: letters in both cases, and bytes on every side of the letter ranges (a
+				// verdict on one byte owes nothing to its neighbours)
+				fills := [][2]byte{{'q', 'Q'}}
+				if n <= 40 {
+					fills = [][2]byte{{'q', 'Q'}, {'1', '1'}, {'-', '-'}, {'@', '@'}, {'{', '{'}, {'Z', 'z'}, {' ', ' '}, {0x7f, 0x7f}, {'`', '`'}, {0, 0}}
 				}
-				a[pos], b[pos] = pr[0], pr[1]
-				off := (n*3 + pos) % 64
-				pa, pb := placeIn(a, off, 0xff), placeIn(b, (off*7+3)%64, 0x80)
-				sa, sb := string(pa), string(pb)
-				want := defEq(a, b)
-				c20Check(c, "EqualFold", a, b, off, want, func() bool { return ascii.EqualFold(pa, pb) })
-				c20Check(c, "EqualFoldString", a, b, off, want, func() bool { return ascii.EqualFoldString(sa, sb) })
-				// as prefix and suffix of a longer string
-				long := append(append([]byte("xy"), a...), "zw"...)
-				pl := placeIn(long, (off+5)%64, 0xff)
-				sl := string(pl)
-				c20Check(c, "HasPrefixFold", long[2:], b, off, want, func() bool { return ascii.HasPrefixFold(pl[2:], pb) })
-				c20Check(c, "HasPrefixFoldString", long[2:], b, off, want, func() bool { return ascii.HasPrefixFoldString(sl[2:], sb) })
-				c20Check(c, "HasSuffixFold", long[:len(long)-2], b, off, want, func() bool { return ascii.HasSuffixFold(pl[:len(pl)-2], pb) })
-				c20Check(c, "HasSuffixFoldString", long[:len(long)-2], b, off, want, func() bool { return ascii.HasSuffixFoldString(sl[:len(sl)-2], sb) })
+				for fi, fl := range fills {
+					a, b := make([]byte, n), make([]byte, n)
+					for i := range a {
+						a[i], b[i] = fl[0], fl[1]
+						if (fi+pi)%2 == 1 && i%3 == 0 {
+							a[i], b[i] = 'q', 'Q' // mixed surroundings
+						}
+					}
+					a[pos], b[pos] = pr[0], pr[1]
+					off := (n*3 + pos) % 64
+					pa, pb := placeIn(a, off, 0xff), placeIn(b, (off*7+3)%64, 0x80)
+					sa, sb := string(pa), string(pb)
+					want := defEq(a, b)
+					c20Check(c, "EqualFold", a, b, off, want, func() bool { return ascii.EqualFold(pa, pb) })
+					c20Check(c, "EqualFoldString", a, b, off, want, func() bool { return ascii.EqualFoldString(sa, sb) })
+					// as prefix and suffix of a longer string
+					long := append(append([]byte("xy"), a...), "zw"...)
+					pl := placeIn(long, (off+5)%64, 0xff)
+					sl := string(pl)
+					c20Check(c, "HasPrefixFold", long[2:], b, off, want, func() bool { return ascii.HasPrefixFold(pl[2:], pb) })
+					c20Check(c, "HasPrefixFoldString", long[2:], b, off, want, func() bool { return ascii.HasPrefixFoldString(sl[2:], sb) })
+					c20Check(c, "HasSuffixFold", long[:len(long)-2], b, off, want, func() bool { return ascii.HasSuffixFold(pl[:len(pl)-2], pb) })
+					c20Check(c, "HasSuffixFoldString", long[:len(long)-2], b, off, want, func() bool { return ascii.HasSuffixFoldString(sl[:len(sl)-2], sb) })
+				}
 			}
 		}
 		c.Case()
